@@ -70,6 +70,27 @@ pub fn epoll_block(
     }
 }
 
+/// eventfd reads and writes of the event loops: operations on a kernel object that several
+/// threads share, so each is a schedule point
+#[cfg(unix)]
+pub mod evfd {
+    use std::os::fd::{AsFd, AsRawFd};
+
+    #[inline]
+    #[track_caller]
+    pub fn read<Fd: AsFd>(fd: Fd, buf: &mut [u8]) -> nix::Result<usize> {
+        super::point(super::Op::Misc, fd.as_fd().as_raw_fd() as usize);
+        nix::unistd::read(fd, buf)
+    }
+
+    #[inline]
+    #[track_caller]
+    pub fn write<Fd: AsFd>(fd: Fd, buf: &[u8]) -> nix::Result<usize> {
+        super::point(super::Op::Misc, fd.as_fd().as_raw_fd() as usize);
+        nix::unistd::write(fd, buf)
+    }
+}
+
 pub mod thread {
     use super::{active, hooks};
     pub use std::thread::{panicking, JoinHandle, Result};
